@@ -252,6 +252,25 @@ fn run_history(h: &MHist, root: &Path) -> RunOut {
     RunOut { trace, viol, completed }
 }
 
+/// Execute a history fault-free in `mroot` (used as a file generator by bytesim).
+pub fn execute_plain(h: &MHist, mroot: &Path) -> Result<(), String> {
+    let mut m = Manifest::open(options(h.ratio), mroot).map_err(|e| format!("{e}"))?;
+    for op in h.ops.iter() {
+        match op {
+            MOp::Edit { rm, add, info } => {
+                let e = build_edit(h, rm, add, info)?;
+                m.apply(e).map_err(|e| format!("{e}"))?;
+            }
+            MOp::Rollover => m.rollover().map_err(|e| format!("{e}"))?,
+            MOp::Reopen => {
+                drop(m);
+                m = Manifest::open(options(h.ratio), mroot).map_err(|e| format!("{e}"))?;
+            }
+        }
+    }
+    Ok(())
+}
+
 /// Fragments chain without gaps: checked with the crate's own `Manifest::verify`.
 fn verify_chain(h: &MHist, mroot: &Path) -> Option<Viol> {
     let errs: Vec<String> = Manifest::verify(options(h.ratio), mroot).map(|e| format!("{e}")).collect();
